@@ -95,7 +95,27 @@ func ruleTERMFOLLOW(c *Ctx) {
 		ln := innermostLoop(loops, ntBlk)
 		// the terminal branch ends in `break`, so it is not part of the natural loop; it belongs to
 		// the walk when the walk's header dominates it
-		if ln != nil && ln.Header.Dominates(termBlk) && ln.Header != termBlk {
+		// ... and under nothing else inside the walk: a further condition on the position in the
+		// rule re-introduces "only when the terminal is the last symbol"
+		var extra []string
+		if ln != nil {
+			for _, gc := range flattenConds(governing(termBlk)) {
+				ib := gc.If.Block()
+				if ib == ln.Header || !ln.Header.Dominates(ib) {
+					continue
+				}
+				if l, op, r, ok := cmpNorm(gc.V, gc.Pol); ok && op == "<" && strings.HasSuffix(r, ".Terminals") && l != "" {
+					continue
+				}
+				if p, ok := gc.V.(*ssa.Parameter); ok && p.Name() == "useTransitions" {
+					continue
+				}
+				extra = append(extra, normalizePhi(vpath(gc.V)))
+			}
+		}
+		if len(extra) > 0 {
+			c.Bad(rule, key, termBlk.Instrs[0].Pos(), "the terminal case of the backward walk is additionally conditioned on %v: a terminal followed by nullable nonterminals no longer inherits the outer follow set", extra)
+		} else if ln != nil && ln.Header.Dominates(termBlk) && ln.Header != termBlk {
 			c.Ok(rule, key, termBlk.Instrs[0].Pos(), "terminal and nonterminal symbols of a rule's tail are handled by the same backward walk (a terminal followed by nullable nonterminals inherits the outer follow set too)")
 		} else {
 			c.Bad(rule, key, termBlk.Instrs[0].Pos(), "the terminal case of the cross-rule phase is not part of the backward walk over the rule's tail: only a terminal that is literally the last symbol inherits the outer follow set, a terminal followed by nullable nonterminals does not")
